@@ -200,4 +200,8 @@ def cmp (T : Tbl) (c : Cmp) (a : Qty) (b : Val) : Except Err Bool :=
     if reflected a.kind o.kind then .ok (cmpDirect T (swapCmp c) o a)
     else .ok (cmpDirect T c a o)
 
+/-- one column of `export_time_variables` (and the time column): every recorded sample is converted on its own,
+    `sample.to(unit).value` — the samples of one series need not carry the same unit -/
+def exportColumn (T : Tbl) (u : Nat) (qs : List Qty) : List Q := qs.map fun q => conv T q u
+
 end Gearpy
